@@ -162,9 +162,9 @@ def small_tables(dlm, tier):
 def random_table(rng, dlm, latin_only):
     alpha = alphabet(dlm) + ['b', 'c', '0', '""', dlm, dlm, ' ', 'x y', '#']
     if not latin_only:
-        alpha += ['€', '😀', ' ']
+        alpha += ['€', '😀', ' ', '\ufeff', '\ufeffb']      # a byte-order mark is special only at the very start of the input; anywhere else it is data
     else:
-        alpha += ['\xff', '\xa0', '\x00', '\x7f']
+        alpha += ['\xff', '\xa0', '\x00', '\x7f', '\xef\xbb\xbf', '\xef\xbb\xbfb']
     nrec = rng.randrange(1, 6)
     ncol = rng.randrange(1, 5)
     table = []
